@@ -82,8 +82,8 @@ def load_known():
 
 
 def write_replay(prop_id, payload):
-    d = VERIF / 'replays'
-    d.mkdir(exist_ok=True)
+    d = pathlib.Path(os.environ.get('VERIF_REPLAY_DIR', VERIF / 'replays'))
+    d.mkdir(parents=True, exist_ok=True)
     blob = json.dumps(payload, sort_keys=True, default=str)
     h = hashlib.sha1(blob.encode()).hexdigest()[:12]
     p = d / f'{prop_id}-{h}.json'
@@ -259,8 +259,9 @@ def run_check(prop, tier, seed):
         'assumptions': list(getattr(prop, 'ASSUMPTIONS', [])),
         'wall_s': round(wall, 2), 'violations': len(violations) + (1 if (broken and not violations) else 0),
     }
-    (VERIF / 'evidence').mkdir(exist_ok=True)
-    (VERIF / 'evidence' / f'{pid}.json').write_text(json.dumps(evidence, indent=1, default=str))
+    evdir = pathlib.Path(os.environ.get('VERIF_EVIDENCE_DIR', VERIF / 'evidence'))
+    evdir.mkdir(parents=True, exist_ok=True)
+    (evdir / f'{pid}.json').write_text(json.dumps(evidence, indent=1, default=str))
     print(f'{pid} {tier} seed={seed}: obligations={len(obligations)} discharged={discharged} '
           f'corr_cases={corr.evaluations} distinct={len(corr.keys)} oracle_runs={oracle_runs} '
           f'broken={len(broken)} violations={len(violations)} wall={wall:.1f}s')
